@@ -1,6 +1,7 @@
 """Shared pieces of the DeepLIFT/SHAP harnesses (C04-C07): network grammar on the nn model, an independent
 layer-by-layer rescale-rule oracle written on plain lists of terms (no hooks, no autograd), real-torch twins for replay."""
 import itertools
+import time
 from fractions import Fraction
 
 import numpy as np
@@ -232,7 +233,7 @@ def real_model(arch, A, L, seed=1, act_override=None):
             layers.append(torch.nn.AvgPool1d(sp[1]))
         elif sp[0] == "maxpool":
             layers.append(torch.nn.MaxPool1d(sp[1], *sp[2:]))
-    return torch.nn.Sequential(*layers)
+    return torch.nn.Sequential(*layers).double()
 
 
 # ------------------------------------------------------------------ one symbolic run of the real deep_lift_shap
@@ -250,6 +251,78 @@ def sym_inputs(ctx, A, L, B, ns, concrete=None):
     return xc, X, rc, R
 
 
+def ackermannize(terms):
+    """Replace every application of an uninterpreted function by a fresh real constant (same constant for syntactically
+    identical applications after replacement of their arguments) and add Ackermann's functional-consistency constraints
+    (equal arguments imply equal values).  The result is equisatisfiable with the input and free of uninterpreted
+    functions; only its `unsat` answers are used."""
+    memo, consts, keep = {}, {}, []
+
+    def go(t):
+        k = t.get_id()
+        if k in memo:
+            return memo[k]
+        keep.append(t)
+        if z3.is_app(t) and t.num_args() > 0:
+            ch = [go(c) for c in t.children()]
+            d = t.decl()
+            if d.kind() == z3.Z3_OP_UNINTERPRETED:
+                key = (d.name(), tuple(c.get_id() for c in ch))
+                if key not in consts:
+                    keep.extend(ch)
+                    consts[key] = z3.Const("ack!%s!%d" % (d.name(), len(consts)), t.sort())
+                r = consts[key]
+            else:
+                r = d(*ch)
+        else:
+            r = t
+        memo[k] = r
+        return r
+    out = [go(z3.simplify(t)) for t in terms]
+    # functional consistency (Ackermann's expansion): equal arguments give equal values
+    by_decl = {}
+    for (name, _ids), c in consts.items():
+        by_decl.setdefault(name, []).append(c)
+    args_of = {}
+    for t_ in list(keep):
+        if z3.is_app(t_) and t_.num_args() > 0 and t_.decl().kind() == z3.Z3_OP_UNINTERPRETED:
+            args_of[memo[t_.get_id()].get_id()] = [memo[c.get_id()] for c in t_.children()]
+    for name, cs in by_decl.items():
+        for i in range(len(cs)):
+            for j in range(i + 1, len(cs)):
+                a1, a2 = args_of.get(cs[i].get_id()), args_of.get(cs[j].get_id())
+                if a1 is not None and a2 is not None and len(a1) == len(a2):
+                    out.append(z3.Implies(z3.And(*[x == y for x, y in zip(a1, a2)]), cs[i] == cs[j]))
+    return out, len(consts)
+
+
+def prove_nra(assertions, negated_claim, timeout_ms=120000):
+    """second opinion for a non-linear obligation: uninterpreted applications abstracted to constants, then z3's complete
+    procedure for non-linear real arithmetic (nlsat).  Returns 'unsat' (the obligation holds) or 'unknown'."""
+    terms, n = ackermannize(list(assertions) + [negated_claim])
+    if any(_has_int(t) for t in terms):
+        return "unknown"              # symbolic characters (integers) in the problem: not a pure real problem, leave it to the combined procedure
+    s = z3.Tactic("qfnra-nlsat").solver()
+    s.set("timeout", timeout_ms)
+    for t in terms:
+        s.add(t)
+    r = s.check()
+    return "unsat" if r == z3.unsat else "unknown"
+
+
+def _has_int(t):
+    seen, todo = set(), [t]
+    while todo:
+        u = todo.pop()
+        if u.get_id() in seen:
+            continue
+        seen.add(u.get_id())
+        if z3.is_int(u) or (z3.is_app(u) and u.decl().kind() in (z3.Z3_OP_TO_REAL, z3.Z3_OP_TO_INT)):
+            return True
+        todo.extend(u.children())
+    return False
+
+
 def split_prove(ctx, claims, what, timeout_ms=None):
     """prove a conjunction claim by claim (smaller non-linear queries); returns (model or None, n_unknown)"""
     unknown = 0
@@ -257,6 +330,15 @@ def split_prove(ctx, claims, what, timeout_ms=None):
         if cl is True:
             continue
         ctx.stats.obligations += 1
+        # first: activation applications abstracted to constants with Ackermann's consistency constraints, pure QF_NRA
+        # (decides in well under a second what the combined UF + NRA procedure leaves unknown after minutes)
+        ctx.stats.queries += 1
+        t0 = time.time()
+        if prove_nra(ctx.solver.assertions(), core.zb(s_not(cl)), timeout_ms=20000) == "unsat":
+            ctx.stats.solver_s += time.time() - t0
+            ctx.stats.discharged += 1
+            continue
+        ctx.stats.solver_s += time.time() - t0
         r = ctx.check(s_not(cl))
         if str(r) == "unknown":
             # non-linear real arithmetic is sensitive to the search order: one retry in a fresh solver with another seed
@@ -272,6 +354,10 @@ def split_prove(ctx, claims, what, timeout_ms=None):
                 r = ctx.check(s_not(cl))          # need a model in the path's own solver
                 if r != z3.sat:
                     r = z3.unknown
+            if str(r) == "unknown":
+                ctx.stats.queries += 1
+                if prove_nra(ctx.solver.assertions(), core.zb(s_not(cl)), timeout_ms=240000) == "unsat":
+                    r = z3.unsat
         if r == z3.unsat:
             ctx.stats.discharged += 1
         elif r == z3.sat:
